@@ -241,3 +241,19 @@ Theorem mark_readonly_changes_no_value : forall sc st h h', nth_error (s_hs st) 
   row_of (fst (cstep sc st (OReadOnly h))) h' = row_of st h'.
 Proof. exact mark_readonly_keeps_values. Qed.
 Print Assumptions mark_readonly_changes_no_value.
+
+(* THE CHECKER ACCEPTS THE MODEL.  For every program (no guard: ill-typed programs included, they get code 2 on both sides),
+   every growth oracle inside it and every selection of handles / slots to observe, the observed-case record built from the
+   MODEL's own run (observe: result code, values read through abs, capacities - the way the harness builds it from the
+   implementation's run) passes the pure-semantics checker spec_ok, the driver's check_both, and has no clause verdict.
+   So a verdict of the checker on an implementation trace is a statement about the same clauses the theorems prove of the
+   model, and the checker never demands more than the model delivers (no false alarm can come from the checker itself). *)
+Theorem model_passes_checker : forall p sels,
+  spec_ok (p, observe cstate0 p sels) = true /\ check_both (p, observe cstate0 p sels) = true /\
+  spec_verdict (p, observe cstate0 p sels) = None.
+Proof. exact model_passes_checker_l. Qed.
+Print Assumptions model_passes_checker.
+(* ... from any start state, for the pure-semantics part *)
+Theorem model_passes_spec_from_any_state : forall p st sels, spec_run (abs_state st) p (observe st p sels) = true.
+Proof. exact model_passes_spec. Qed.
+Print Assumptions model_passes_spec_from_any_state.
